@@ -15,11 +15,11 @@ MANIFEST = {
  'design_ref': 'DESIGN.md §6 C12',
 }
 THEOREMS = [
-    'C12.splitBytes_spec', 'C12.wrap_concat', 'C12.byteTextWrap_lines_nonempty', 'C12.munge_blen_le',
-    'C12.start_end_size', 'C12.ircWrap_fits_partial', 'C12.ircWrap_fits_plain', 'C12.ircWrap_plain_text',
-    'C12.makeReply_wire', 'C12.fits_512_partial', 'C12.fits_512_plain', 'C12.single_fits_512',
-    'C12.more_protocol', 'C12.more_counts', 'C12.reply_first_batch', 'C12.visible_text_plain',
-    'C12.consts_ok',
+    'C12.consts_ok', 'C12.splitBytes_spec', 'C12.wrap_concat', 'C12.byteTextWrap_lines_nonempty', 'C12.munge_blen_le',
+    'C12.parse_colours_small', 'C12.start_end_size', 'C12.ircWrap_fits_partial', 'C12.ircWrap_fits_counterexample',
+    'C12.ircWrap_plain', 'C12.coherent_plain', 'C12.makeReply_wire', 'C12.fits_512_partial', 'C12.fits_512_plain',
+    'C12.single_fits_512', 'C12.more_counts', 'C12.more_counts_delivery', 'C12.reply_first_batch', 'C12.more_protocol',
+    'C12.visible_text_plain',
 ]
 TRUSTED = ['Lean 4.33.0 kernel; axioms ⊆ {propext, Classical.choice, Quot.sound}',
            'harness/extractors/reply.py (constants of splitBytes, FormatContext, FormatParser, reply, _makeReply → Gen/Reply.lean)',
